@@ -47,7 +47,7 @@ ENGINES = {
                                        '-fno-builtin-aligned_alloc', '-fno-builtin-posix_memalign'], 'heap_ops_%d.o' % k) for k in range(6)],
         'link': ['-pthread', '-Wl,--wrap=malloc,--wrap=free,--wrap=calloc,--wrap=realloc,--wrap=posix_memalign,--wrap=aligned_alloc'],
         'configs': C.heap_configs,
-        'seeded_runs': {'quick': 200000, 'thorough': 8000000},
+        'seeded_runs': {'quick': 200000, 'thorough': 5000000},
         'gate_n': {'quick': 200, 'thorough': 5000},
         'required_probes': {'C18': []},
         'required_faults': [],
